@@ -7,6 +7,8 @@ std-side specification on plain byte lists; `abs` reads every handle back.  The 
 the real crate and to real std is the `coredrive` correspondence run.
 -/
 import HipVerif.Lemmas.CoreRun
+import HipVerif.Lemmas.CoreExtraA
+import HipVerif.Audit.Reexport
 
 namespace HipVerif.Props.C01
 open HipVerif.Core HipVerif.Spec.Std
@@ -47,6 +49,11 @@ theorem panic_iff (cfg : Cfg) (s : State) (op : Op) (w : Wf cfg s) (hok : OpOk s
   rw [refines cfg s op w hok]
   simp only
   cases (step cfg s op).2.ret <;> simp [eraseRet]
+
+/-- Operations behave IDENTICALLY with debug assertions on and off: from a well-formed state no
+debug assertion of the model (normalisation of slice/truncate results, validity of the heap
+descriptor) can fire. -/
+reexport HipVerif.Core.debug_irrelevant as debug_irrelevant
 
 /-- The invariant holds in every reachable state. -/
 theorem reachable_wf (cfg : Cfg) (srcs : List (List UInt8)) (n : Nat) (ops : List Op) :
